@@ -93,11 +93,12 @@ func (p plainReader) Read(b []byte) (int, error) { return p.r.Read(b) }
 
 func opCborDec(args []Sx) Sx {
 	kinds, input := args[0].L, args[1].B
-	rd := bytes.NewReader(input)
-	var r io.Reader = rd
+	r, spoil := ownedSrc(input)
+	rd := r.(interface{ Len() int })
 	if len(args) > 2 && args[2].IsSym("nolen") {
-		r = plainReader{rd}
+		r = plainReader{r}
 	}
+	defer spoil()
 	d := vh.CborNewDecoder(r)
 	vals := []Sx{}
 	for _, k := range kinds {
